@@ -117,6 +117,45 @@ def _param_only_read(prog, mod: Module, call: ast.Call, idx: int, depth: int = 0
     return True
 
 
+def _readonly_class_table(prog, mod: Module, cls: ClassInfo, stmt: ast.stmt) -> Optional[str]:
+    """A class-level dict / list / set display of immutable entries (constants, enum members, the class's own functions)
+    that every use in the package only reads (subscript load, .get, membership, iteration): a constant dispatch table."""
+    targets = stmt.targets if isinstance(stmt, ast.Assign) else [stmt.target]
+    if len(targets) != 1 or not isinstance(targets[0], ast.Name):
+        return None
+    name, val = targets[0].id, stmt.value
+    if isinstance(val, ast.Dict) and all(k is not None for k in val.keys):
+        leaves = list(val.keys) + list(val.values)
+    elif isinstance(val, (ast.List, ast.Set, ast.Tuple)):
+        leaves = list(val.elts)
+    else:
+        return None
+    own = {n_.name for n_ in cls.node.body if isinstance(n_, (ast.FunctionDef, ast.AsyncFunctionDef))}
+    if not leaves or not all(is_immutable_value(prog, mod, x) or (isinstance(x, ast.Name) and x.id in own) for x in leaves):
+        return None
+    n_uses = 0
+    for m in prog.modules.values():
+        for node in ast.walk(m.tree):
+            if not (isinstance(node, ast.Attribute) and node.attr == name):
+                continue
+            if isinstance(node.ctx, (ast.Store, ast.Del)):
+                return None
+            n_uses += 1
+            par = prog.parent(node)
+            if isinstance(par, ast.Subscript) and par.value is node and isinstance(par.ctx, ast.Load):
+                continue
+            if isinstance(par, ast.Attribute) and par.value is node and par.attr in ('get', 'keys', 'values', 'items', '__contains__'):
+                continue
+            if isinstance(par, ast.Compare) and node in par.comparators and all(isinstance(o, (ast.In, ast.NotIn)) for o in par.ops):
+                continue
+            if isinstance(par, (ast.For, ast.comprehension)) and par.iter is node:
+                continue
+            if isinstance(par, ast.Call) and node in par.args and getattr(par.func, 'id', '') in ('len', 'sorted', 'list', 'tuple', 'iter'):
+                continue
+            return None
+    return f'class-level constant table `{name}`: immutable entries, only read ({n_uses} uses)'
+
+
 def readonly_table(prog, mod: Module, stmt: ast.stmt) -> Optional[str]:
     """A module-level container display that is a constant table: its elements are immutable (constants, functions,
     classes, enum members) and every use of its name anywhere in the package only reads it (subscript load, membership,
@@ -219,8 +258,11 @@ def module_state_instances(ctx) -> List[tuple]:
                     out.append((mod.name, cls.name, stmt, ok, why, stmt))
                     continue
                 ok = is_immutable_value(prog, mod, val)
-                out.append((mod.name, cls.name, stmt, ok,
-                            'class-level immutable default' if ok else
+                why_ro = None
+                if not ok and isinstance(stmt, (ast.Assign, ast.AnnAssign)):
+                    why_ro = _readonly_class_table(prog, mod, cls, stmt)
+                out.append((mod.name, cls.name, stmt, ok or why_ro is not None,
+                            'class-level immutable default' if ok else why_ro if why_ro else
                             'class-level mutable attribute: shared by all instances', stmt))
     for fn in prog.all_functions():
         for n in iter_own_nodes(fn.node):
